@@ -71,6 +71,7 @@ type Exec struct {
 	opaquePtr map[*Cell]*Term
 	guardOrd map[ssa.Instruction]string
 	lemmas []*LemmaInst
+	pendingForks []*State
 	elideCache map[*ssa.BasicBlock]*ssa.BasicBlock
 	assertedSites map[string]bool
 	covers int
@@ -1575,6 +1576,10 @@ func (x *Exec) execInstr(st *State, in ssa.Instruction) (forks []*State) {
 		res, fk := x.call(st, in, v.Common())
 		if res != nil {
 			st.regs[v] = res
+		}
+		if len(x.pendingForks) > 0 {
+			fk = append(fk, x.pendingForks...)
+			x.pendingForks = nil
 		}
 		return fk
 	case *ssa.Go:
